@@ -147,6 +147,9 @@ def wp_ok(t):
     return True
 
 
+MUST_REJECT = ['1e5', 'a * 1.5e2', 'f0(1e5, 2)', '2E+3', '1e', '1e+', '.5', '1.2.3', '1_000', '0x10', 'a + 3e7 * b']
+
+
 # ------------------------------------------------------------------ generators
 def str_tok(r):
     q = r.choice(["'", '"'])
@@ -285,6 +288,9 @@ def run(tier):
     for text in ['a + b * c', 'a && b < c * d + e', 'a + b * c ** d ** e', 'a = b', 'a ! b', '-a ** b', '(a + b) * c', 'fn(a ! b)',
                  'a - -1', 'a + +1', '1e5', 'f(1)', 'ab (c)', 'a (c)', '[a b] + 1', "'x\\'y' + \"z\\\"w\""]:
         cases.append((None, text, 'corpus'))
+    # ill-formed number spellings: an exponent needs its sign (the literal grammar is  digits[.digits][e(+|-)digits])
+    for text in MUST_REJECT:
+        cases.append((None, text, 'must-reject'))
     # exhaustive operator chains (identifier operands)
     maxlen = 4
     names = ['a', 'b', 'c', 'd', 'e']
@@ -323,6 +329,8 @@ def run(tier):
     seen_nontrivial = set()
     for (toks, text, tag), res in zip(cases, impl):
         dist[tag] = dist.get(tag, 0) + 1
+        if tag == 'must-reject' and 'err' not in res:
+            chk.oracle_fail.append({'class': 'ill-formed-number-accepted', 'source': text, 'got': res})
         if 'again' in res and len(chk.oracle_fail) < 30:
             chk.oracle_fail.append({'class': 'parse-result-depends-on-earlier-calls', 'source': text,
                                     'first': {k: v for k, v in res.items() if k != 'again'}, 'second_pass': res['again']})
